@@ -75,10 +75,10 @@ def run_pipeline(tree, rename_locals=True, rename_globals=False, hoist_literals=
         # hash() in rename_literals: a constant is a valid hash for any __eq__; the real one makes CrossHair hand a
         # symbolic int to HoistedValue.__hash__ ("proxy intolerance")
         rl_mod = mod('python_minifier.rename.rename_literals')
-        with builtins_stubbed(), pipeline(tree, capture=cap), patched(rl_mod, 'hash', _const_hash), patched(rl_mod, 'repr', _len_repr):
+        with builtins_stubbed(), pipeline(tree, capture=cap, placeholder_only=True), patched(rl_mod, 'hash', _const_hash), patched(rl_mod, 'repr', _len_repr):
             python_minifier.minify('', **opts)
     else:
-        with pipeline(tree, capture=cap):
+        with pipeline(tree, capture=cap, placeholder_only=True):
             python_minifier.minify('', **opts)
     return cap.tree
 
